@@ -106,6 +106,8 @@ pub enum Inner {
     Point,
     /// `struct W<'a>(Cow<'a, [f32]>)`: lifetime-parameterised, no Eq/Ord/Hash, PartialEq not reflexive
     CowF32,
+    /// `Vec<u8>`: byte buffers have a second serde representation (`bytes`)
+    VecU8,
 }
 
 impl Inner {
@@ -119,6 +121,7 @@ impl Inner {
             Inner::VecI32 => "Vec<i32>",
             Inner::Point => "Point",
             Inner::CowF32 => "Cow<'static, [f32]>",
+            Inner::VecU8 => "Vec<u8>",
         }
     }
     pub fn family(self) -> &'static str {
@@ -126,7 +129,7 @@ impl Inner {
             Inner::Str => "string",
             Inner::Int(_) => "integer",
             Inner::F32 | Inner::F64 => "float",
-            Inner::VecI32 | Inner::Point | Inner::CowF32 => "other",
+            Inner::VecI32 | Inner::Point | Inner::CowF32 | Inner::VecU8 => "other",
         }
     }
     /// module of `vlib::fns` holding the custom functions for this inner type
@@ -139,6 +142,7 @@ impl Inner {
             Inner::VecI32 => "fvec".into(),
             Inner::Point => "fpoint".into(),
             Inner::CowF32 => "fcow".into(),
+            Inner::VecU8 => "fbytes".into(),
         }
     }
     pub fn entry_variant(self) -> &'static str {
@@ -161,6 +165,7 @@ impl Inner {
             Inner::VecI32 => "VecI32",
             Inner::Point => "Point",
             Inner::CowF32 => "CowF32",
+            Inner::VecU8 => "VecU8",
         }
     }
     pub fn is_float(self) -> bool {
@@ -170,7 +175,7 @@ impl Inner {
         matches!(self, Inner::Int(_))
     }
     pub fn is_other(self) -> bool {
-        matches!(self, Inner::VecI32 | Inner::Point | Inner::CowF32)
+        matches!(self, Inner::VecI32 | Inner::Point | Inner::CowF32 | Inner::VecU8)
     }
 }
 
@@ -886,6 +891,9 @@ impl Decl {
         if self.has(Tr::Deserialize) {
             w!(o, "    de: vlib::g_de!(),");
             w!(o, "    de_in_place: vlib::g_de_in_place!(),");
+            if matches!(self.inner, Inner::Int(_) | Inner::F32 | Inner::F64 | Inner::Str | Inner::VecI32 | Inner::VecU8) {
+                w!(o, "    de_value: vlib::g_de_value!(),");
+            }
             w!(o, "    de_ref: Some(|f: Fmt, p: Pos, b: &[u8]| vlib::glue::de_any::<RefNt, II>(f, p, b, |r| r.0)),");
             if self.has(Tr::Ord) {
                 w!(o, "    de_key: vlib::g_de_key!(),");
